@@ -73,6 +73,7 @@ Qed.
 Lemma rule10_ok : quiet_rule_ok 10.
 Proof.
   intros c s1 s W D Q Ls. fold (St c s1) in Q. fold (Tr c s1). unfold d_check_quiet. unfold a_returned, a_started.
+  destruct (o_returned (Tr c s1) (TClose s) && negb (dm_wild (dcfg_of_cfg c) s) && Nat.ltb (o_nread (Tr c s1) s) (o_nreq (Tr c s1) s)); [discriminate|].
   destruct (o_returned (Tr c s1) (TSub s)) eqn:R; [|cbn; discriminate]. destruct (o_started (Tr c s1) (TClose s)) eqn:Hc; [cbn; discriminate|]. cbn [negb orb].
   destruct (Nat.ltb (o_nread (Tr c s1) s + dm_cap (dcfg_of_cfg c) s) (length (a_due (dcfg_of_cfg c) (Tr c s1) s))); [discriminate|].
   assert (Ex : exists cs, nth_error (subs (St c s1)) s = Some cs).
@@ -167,4 +168,34 @@ Proof.
     - cbn in Hp'. inversion Hp'; subst y. assert (In (n, lv) (proj n r1)) by (rewrite Pq; left; reflexivity). apply filter_In in H. apply H. }
   unfold a_read, a_reads. apply existsb_exists. exists lv. split; [rewrite <- M1; apply in_map_iff; exists (n, lv); auto|].
   unfold dm_ev_ty, a_nonfresh. rewrite Ff, Dty, Hfx. cbn. rewrite andb_true_r. apply Nat.eqb_eq. exact Tyn.
+Qed.
+
+(* rule 14: after Close of a typed subscription has returned its channel is closed: at a
+   quiescent point every receive on it has been answered *)
+Lemma rule14_ok : quiet_rule_ok 14.
+Proof.
+  intros c s1 s W D Q Ls. fold (St c s1) in Q. fold (Tr c s1). unfold d_check_quiet. unfold a_returned.
+  destruct (o_returned (Tr c s1) (TClose s)) eqn:R; cbn [andb];
+    [|repeat (match goal with |- context[if ?x then _ else _] => destruct x end); discriminate].
+  destruct (dm_wild (dcfg_of_cfg c) s) eqn:Wd; cbn [negb andb];
+    [repeat (match goal with |- context[if ?x then _ else _] => destruct x end); discriminate|].
+  destruct (Nat.ltb (o_nread (Tr c s1) s) (o_nreq (Tr c s1) s)) eqn:Lt;
+    [exfalso|repeat (match goal with |- context[if ?x then _ else _] => destruct x end); discriminate].
+  apply Nat.ltb_lt in Lt.
+  assert (Ex : exists cs, nth_error (subs (St c s1)) s = Some cs).
+  { destruct (nth_error (subs (St c s1)) s) as [cs|] eqn:Ec; [eauto|]. apply nth_error_None in Ec.
+    pose proof (d_state c s1) as Dd. unfold dcfg_of_cfg, dcfg_of_state in Dd. inversion Dd as [[D1 D2 D3]]. fold (St c s1) in D2.
+    assert (length (sS (St c s1)) = length (c_subs c)) by (rewrite <- D2, map_length; reflexivity). unfold sS in H. rewrite map_length in H. lia. }
+  destruct Ex as [cs Ec]. destruct (trok_cfg c s1 W) as [O _ _].
+  assert (Kp : cpc cs = KDone).
+  { pose proof (obC _ _ O s (cpc cs)) as N. unfold xC in N. rewrite nth_error_map in N. fold (St c s1) in N. rewrite Ec in N. specialize (N eq_refl).
+    unfold tstat in N. fold (Tr c s1) in N. rewrite R in N. destruct (cpc cs); cbn in N; try discriminate. reflexivity. }
+  assert (Ty : styps cs <> None).
+  { rewrite (d_state c s1) in Wd. fold (St c s1) in Wd. rewrite (dm_wild_state _ _ s cs Ec) in Wd. destruct (styps cs); [discriminate|discriminate]. }
+  destruct (Forall_nth_error _ _ _ _ (loc4_cfg c s1 W) Ec) as [_ [_ [_ [Q4 _]]]]. pose proof (Q4 Ty (or_intror Kp)) as Cl.
+  pose proof (obW _ _ O s (want cs + length (hand cs))%nat) as OW. unfold xW in OW. rewrite nth_error_map in OW. fold (St c s1) in OW. rewrite Ec in OW. specialize (OW eq_refl). fold (Tr c s1) in OW.
+  rewrite (quiet_hand _ s cs Q Ec) in OW. cbn in OW. destruct (want cs) as [|w] eqn:Ew; [lia|].
+  destruct (buf cs) as [|it b] eqn:Eb.
+  - eapply (quiet_no_tau (St c s1) (TRecv s)); [exact Q|]. cbn. unfold step_recv. rewrite Ec, Ew, Eb, Cl. reflexivity.
+  - eapply (quiet_no_tau (St c s1) (TRecv s)); [exact Q|]. cbn. unfold step_recv. rewrite Ec, Ew, Eb. reflexivity.
 Qed.
